@@ -404,9 +404,11 @@ class ScriptGen:
             if n in (2, 4) and t.chance(0.4, "transpose"):
                 cols = Const(self.pick([1, 2] if n == 2 else [1, 2, 4], "tcols"))
                 x = self._arr_leaf_or(D, n, depth - 1)
+                # (numpy's transpose/reshape may return a *view* of its argument: multiply so that the
+                # result is fresh storage -- aliasing is outside the well-defined domain, DESIGN §3.4)
                 if F.kwargs and t.chance(0.5, "tkw"):
-                    return Call("<builtin>transpose", [x], [("a_cols", cols)])
-                return Call("<builtin>transpose", [x, cols])
+                    return Bin("*", Const(2), Call("<builtin>transpose", [x], [("a_cols", cols)]))
+                return Bin("*", Const(2), Call("<builtin>transpose", [x, cols]))
             return Call("<builtin>elementwise_abs", [self._arr_leaf_or(D, n, depth - 1)])
         if k == 6:
             return IfX(self.g_bool(D, 0),
@@ -607,7 +609,9 @@ class ScriptGen:
                 return None
             s = self.pick(cands, "acc")
             loops, ctrs = self.gen_loops(D, arr_n=n)
-            body = Bin("+", Var(s), self.g_num(D, 1, counters=ctrs))
+            # the added term must not mention s itself (s <- s + s*s in a loop nest grows doubly
+            # exponentially and the real interpreter never finishes)
+            body = Bin("+", Var(s), self.g_num(D - {s}, 1, counters=ctrs))
             return ("assign", s, None, body, loops, self.mode())
         if k == 4:
             kind = t.weighted([2, 2 if F.multi_assign else 0, 1, 1 if F.builtins and self.arrs(D) else 0], "callkind")
